@@ -142,7 +142,7 @@ def check_word(sh, w, tables, P, cls=None):
                      'asm(%r) (from 0x%08x) raised %r' % (txt, w, e), wit)
         return
     if got != [w]:
-        sh.violation('asm-differs/%s%s' % (cname, ('/' + branch_diff(w ^ got[0])) if (got and cname in BRANCH_CLASSES) else ''),
+        sh.violation('asm-differs/%s%s' % (cname, ('/' + branch_diff(w ^ got[0]) + ('(BO-ignores-condition)' if ((w >> 21) & 0x10 and (w ^ got[0]) & 0x001f0000) else '')) if (got and cname in BRANCH_CLASSES) else ''),
                      'asm(%r) = %s, expected 0x%08x (differs in bits %s)' % (txt, ['0x%08x' % g for g in got], w, bits(w ^ got[0]) if got else '-'), wit)
     if len(sh.samples) < 3:
         sh.sample({'word': '0x%08x' % w, 'class': cname, 'text': txt, 'architecture': arch})
@@ -187,6 +187,22 @@ def words_for(primary, tier, seed):
             for bi in (0, 1, 2, 3, 4, 7, 31):
                 for tail in ((0x10, 0x12, 0x11, 0x13, 0xfffc, 0x8000) if primary != 19 else (16 << 1, (16 << 1) | 1, 528 << 1, (528 << 1) | 1)):
                     yield (primary << 26) | (bo << 21) | (bi << 16) | tail, 'branch'
+    # name-table driven fields: every special-purpose / time-base register number (10 bits, mfspr 339, mtspr 467, mftb 371),
+    # every segment register (mtsr 210, mfsr 595), every CR bit of the CR-logical group
+    if primary == 31:
+        for ext in (339, 467, 371):
+            for spr in range(1024):
+                for rt in (0, 3):
+                    yield (31 << 26) | (rt << 21) | (spr << 11) | (ext << 1), 'spr'
+        for ext in (210, 595):
+            for sr in range(16):
+                yield (31 << 26) | (3 << 21) | (sr << 16) | (ext << 1), 'sr'
+    # conditional branches: every BI (condition bit x CR field) for the BO classes with a distinct text form
+    if primary in (16, 19):
+        for bo in (0, 2, 4, 8, 10, 12, 16, 18, 20):
+            for bi in range(32):
+                for tail in ((0x10, 0xfff0) if primary == 16 else (16 << 1, 528 << 1)):
+                    yield (primary << 26) | (bo << 21) | (bi << 16) | tail, 'branch-bi'
     for _ in range(2000 if tier == 'quick' else 20000):
         yield (primary << 26) | rng.getrandbits(26), 'random'
 
